@@ -135,8 +135,67 @@ func ruleR05_1(w *World, r *Report) {
 // R05.2 checkpoint never moves backwards
 func ruleR05_2(w *World, r *Report) {
 	u := w.Client()
-	r.Rule("R05.2", "the client's checkpoint fields are written only in syncCheckPoint (each store guarded by old < new on the same field, storing the new value), in the subscribe reset of checkOptionAndError and in the exported SetCheckPoint", 4)
+	r.Rule("R05.2", "the client's checkpoint fields are written only in syncCheckPoint (each store guarded by old < new on the same field, storing the new value), in the subscribe reset of checkOptionAndError and in the exported SetCheckPoint (helpers extracted from these count as part of them)", 4)
+	type root struct {
+		name string
+		d    *deepFn
+	}
+	var roots []root
+	covered := map[*ssa.Function]string{}
+	for _, n := range []string{"syncCheckPoint", "checkOptionAndError", "SetCheckPoint"} {
+		fn := u.Fn(pDatatypes, "WiredDatatype", n)
+		if fn == nil {
+			if n != "SetCheckPoint" {
+				r.Lost("WiredDatatype." + n)
+			}
+			continue
+		}
+		d := deepOf(fn)
+		roots = append(roots, root{n, d})
+		for _, nd := range d.nodes {
+			if _, ok := covered[nd.fn]; !ok {
+				covered[nd.fn] = n
+			}
+		}
+	}
 	nGuarded := 0
+	for _, rt := range roots {
+		rt.d.each(func(x dins) {
+			st, ok := x.in.(*ssa.Store)
+			if !ok {
+				return
+			}
+			owner, field, _, isField := storeField(st.Addr)
+			addr := rt.d.name(x.n, st.Addr)
+			if !isField || owner != "CheckPoint" || !strings.HasPrefix(addr, "$0.checkPoint.") {
+				return
+			}
+			cons := "WiredDatatype." + rt.name + "/store checkPoint." + field
+			switch rt.name {
+			case "syncCheckPoint":
+				nGuarded++
+				want := fmt.Sprintf("+$0.checkPoint.%s-$1.%s < 0", field, field)
+				paths, okp := rt.d.paths(x, nil)
+				val := rt.d.linear(x.n, st.Val).String()
+				good := okp && allLitPathsHaveLin(paths, want) && val == "+$1."+field
+				r.Check(good, cons, u.Pos(st.Pos()), "guarded by old < new, stores the new value", fmt.Sprintf("the store is not of the form 'if old.%s < new.%s { old.%s = new.%s }' (value %s, guards %v): a stale response could move the checkpoint backwards", field, field, field, field, val, linsOf(paths)))
+			case "checkOptionAndError":
+				paths, okp := rt.d.paths(x, nil)
+				good := okp && allLitPathsContain(paths, "!HasErrorBit(", "HasSubscribeBit(")
+				for _, p := range paths {
+					for _, l := range p.strs {
+						if strings.HasPrefix(l, "!HasSubscribeBit(") {
+							good = false
+						}
+					}
+				}
+				r.Check(good, cons, u.Pos(st.Pos()), "subscribe reset", "the checkpoint is reset outside the subscribe branch of a successful response")
+			case "SetCheckPoint":
+				r.OK(cons, u.Pos(st.Pos()), "exported setter (server-side rebuild)")
+			}
+		})
+	}
+	// who may write
 	for _, fn := range u.ordaFuncs(func(p string) bool { return p == pDatatypes || p == pOrda || p == pCManagers }) {
 		name := fnName(fn)
 		forEachInstr(fn, func(in ssa.Instruction) {
@@ -145,47 +204,16 @@ func ruleR05_2(w *World, r *Report) {
 				return
 			}
 			addr := canonName(st.Addr)
-			if !strings.Contains(addr, ".checkPoint") || !strings.HasPrefix(addr, "$0") {
-				return
-			}
 			owner, field, _, isField := storeField(st.Addr)
 			if isField && owner == "WiredDatatype" && field == "checkPoint" {
 				r.Check(name == "datatypes.NewWiredDatatype" || isFreshBase(st.Addr), name+"/replaces the checkpoint object", u.Pos(st.Pos()), "constructor", "the checkpoint object is replaced outside the constructor")
 				return
 			}
-			if !isField || owner != "CheckPoint" {
+			if !isField || owner != "CheckPoint" || !strings.Contains(addr, ".checkPoint.") {
 				return
 			}
-			cons := name + "/store checkPoint." + field
-			switch name {
-			case "WiredDatatype.syncCheckPoint":
-				nGuarded++
-				want := fmt.Sprintf("+$0.checkPoint.%s-$1.%s < 0", field, field)
-				paths, okp := pathLinCmps(fn, st, nil)
-				val := canonLinear(st.Val).String()
-				good := okp && allPathsHave(paths, want) && val == "+$1."+field
-				r.Check(good, cons, u.Pos(st.Pos()), "guarded by old < new, stores the new value", fmt.Sprintf("the store is not of the form 'if old.%s < new.%s { old.%s = new.%s }' (value %s, guards %v): a stale response could move the checkpoint backwards", field, field, field, field, val, paths))
-			case "WiredDatatype.checkOptionAndError":
-				// subscribe reset: only on the not-error, subscribe-bit edge
-				paths, okp := reachingLits(fn, nil, st)
-				good := okp && len(paths) > 0
-				for _, p := range paths {
-					errFalse, subTrue := false, false
-					for _, l := range p {
-						if l.Kind == "call" && calleeName(l.Call) == "HasErrorBit" && !l.Pol {
-							errFalse = true
-						}
-						if l.Kind == "call" && calleeName(l.Call) == "HasSubscribeBit" && l.Pol {
-							subTrue = true
-						}
-					}
-					good = good && errFalse && subTrue
-				}
-				r.Check(good, cons, u.Pos(st.Pos()), "subscribe reset", "the checkpoint is reset outside the subscribe branch of a successful response")
-			case "WiredDatatype.SetCheckPoint":
-				r.OK(cons, u.Pos(st.Pos()), "exported setter (server-side rebuild)")
-			default:
-				r.Bad(cons, u.Pos(st.Pos()), "an unexpected function writes the client checkpoint")
+			if _, ok := covered[fn]; !ok {
+				r.Bad(name+"/store checkPoint."+field, u.Pos(st.Pos()), "an unexpected function writes the client checkpoint")
 			}
 		})
 	}
@@ -290,14 +318,15 @@ func ruleR05_5(w *World, r *Report) {
 	if fn := wd("checkOptionAndError"); fn == nil {
 		r.Lost("WiredDatatype.checkOptionAndError")
 	} else {
+		d := deepOf(fn)
 		for _, f := range []struct{ field, want string }{{"Cseq", "+$1.CheckPoint.Cseq"}, {"Sseq", "+$1.CheckPoint.Sseq-len($1.Operations)"}} {
-			sts := storesTo(fn, "$0.checkPoint."+f.field)
+			sts := d.stores("$0.checkPoint." + f.field)
 			if len(sts) == 0 {
 				r.Lost("checkOptionAndError: subscribe reset of " + f.field)
 				continue
 			}
-			got := canonLinear(sts[0].Val).String()
-			r.Check(got == f.want, "checkOptionAndError/subscribe reset "+f.field, u.Pos(sts[0].Pos()), got, "subscribe reset sets "+f.field+" to "+got+", expected "+f.want)
+			got := d.linear(sts[0].n, sts[0].in.(*ssa.Store).Val).String()
+			r.Check(got == f.want, "checkOptionAndError/subscribe reset "+f.field, d.pos(u, sts[0]), got, "subscribe reset sets "+f.field+" to "+got+", expected "+f.want)
 		}
 	}
 	// (6) server: end of log after a pull
